@@ -388,6 +388,19 @@ func SameAsHome(key string, v interface{}) {
 	h, ok := homes[key]
 	mu.Unlock()
 	eq := ok && reflect.DeepEqual(h, v)
+	if ok && h != nil && v != nil {
+		// function values are compared by what they return (parameterless ones)
+		a, b := reflect.ValueOf(h), reflect.ValueOf(v)
+		if a.Kind() == reflect.Func && a.Type() == b.Type() && a.Type().NumIn() == 0 && !a.IsNil() && !b.IsNil() {
+			ra, rb := a.Call(nil), b.Call(nil)
+			eq = len(ra) == len(rb)
+			for i := range ra {
+				if eq && !reflect.DeepEqual(ra[i].Interface(), rb[i].Interface()) {
+					eq = false
+				}
+			}
+		}
+	}
 	same := false
 	if ok && h != nil && v != nil {
 		a, b := reflect.ValueOf(h), reflect.ValueOf(v)
